@@ -23,6 +23,13 @@ call, and `down` is observed after `close()` returned.  Observations are those o
 markers: `made` (makeRequest returned Deferred number `serial`), `closing` (`close()` went ahead),
 `hookBegin`/`hookEnd` around everything a re-entrant action does.
 
+The endpoint may also report the outcome of `connect()` SYNCHRONOUSLY (`syncMode ok|fail`: the Deferred has
+already fired when `connect()` returns — an in-process endpoint, `reactor.connectTCP` raising, a failing
+endpoint factory): then `cbConnect` (with `_sendQueued` and every callback it runs) or `ebConnect` (the
+back-off timer) runs INSIDE `tryConnect()`, i.e. inside `makeRequest` (`makeS`), inside `_connectionLost`
+(`lost`) or inside the timer (`dial`).  With `syncMode none` these tasks are not used and the model is the
+one above.
+
 A hook is a finite list of actions; each Deferred fires at most once, so hooks nest at most as deep as
 there are requests; `fuel` (decremented on every call) bounds the recursion structurally, `fuelOut` would be
 emitted if it ran out (it cannot for fuel ≥ the size of the scenario; the driver uses 100000).
